@@ -9,6 +9,8 @@ import (
 	"go/ast"
 	"go/token"
 	"go/types"
+
+	"golang.org/x/tools/go/packages"
 )
 
 func checkRewriteFlagState(r *Run) {
@@ -188,5 +190,80 @@ func checkLazyMapReadThroughAccessor(r *Run) {
 			})
 		}
 		r.Ob(rule, tname+":direct-reads", accessor.Pos(), true, "methods of %s other than %s examined for direct reads of %s", tname, accessor.Name.Name, lazy.Name())
+		checkLazyMapReadUnderFlag(r, p, tname, lazy)
+	}
+}
+
+// checkLazyMapReadUnderFlag (R9, outside readers): code outside the rewriter type takes the lazily created map only
+// where the rewriter's flag is known to be set (the first clause ties the flag to the accessor, so the map exists
+// there). Taken anywhere else it is nil whenever the pass had nothing to rewrite, and a query that a later pass does
+// rewrite is sent without the parameters it names.
+func checkLazyMapReadUnderFlag(r *Run, p *packages.Package, tname string, lazy *types.Var) {
+	const rule = "C10-R9-rewritten-implies-parameters"
+	info := p.TypesInfo
+	tn, _ := p.Types.Scope().Lookup(tname).(*types.TypeName)
+	if tn == nil {
+		return
+	}
+	st, _ := tn.Type().Underlying().(*types.Struct)
+	var flag *types.Var
+	for i := 0; st != nil && i < st.NumFields(); i++ {
+		if b, isBasic := st.Field(i).Type().Underlying().(*types.Basic); isBasic && b.Kind() == types.Bool {
+			flag = st.Field(i)
+		}
+	}
+	if flag == nil {
+		return
+	}
+	isFlag := func(e ast.Expr) bool {
+		sel, ok := ast.Unparen(e).(*ast.SelectorExpr)
+		return ok && info.Uses[sel.Sel] == flag
+	}
+	var holds func(e ast.Expr, neg bool) bool
+	holds = func(e ast.Expr, neg bool) bool {
+		e = ast.Unparen(e)
+		switch x := e.(type) {
+		case *ast.UnaryExpr:
+			if x.Op == token.NOT {
+				return holds(x.X, !neg)
+			}
+		case *ast.BinaryExpr:
+			if (x.Op == token.LAND && !neg) || (x.Op == token.LOR && neg) {
+				return holds(x.X, neg) || holds(x.Y, neg)
+			}
+		}
+		return !neg && isFlag(e)
+	}
+	for _, f := range p.Syntax {
+		for _, d := range f.Decls {
+			fd, ok := d.(*ast.FuncDecl)
+			if !ok || fd.Body == nil {
+				continue
+			}
+			if fd.Recv != nil && recvTypeName(fd.Recv.List[0].Type) == tname {
+				continue
+			}
+			nth := 0
+			ast.Inspect(fd.Body, func(x ast.Node) bool {
+				sel, ok := x.(*ast.SelectorExpr)
+				if !ok || info.Uses[sel.Sel] != lazy {
+					return true
+				}
+				nth++
+				construct := funcDeclName(fd) + ":takes " + lazy.Name() + "#" + string(rune('0'+nth))
+				guarded := false
+				for _, l := range controlConds(fd.Body, sel) {
+					if holds(l.Expr, l.Neg) {
+						guarded = true
+					}
+				}
+				if guarded {
+					r.Pass(rule, construct, sel.Pos(), "%s is taken where %s is known to be set", lazy.Name(), flag.Name())
+				} else {
+					r.Fail(rule, construct, sel.Pos(), "%s takes %s.%s where %s is not known to be set: the map is created on first use, so it is nil whenever this pass had nothing to rewrite — if another pass then rewrites the query, the re-emitted text is sent with nil parameters and every `$name` in it is unbound", funcDeclName(fd), tname, lazy.Name(), flag.Name())
+				}
+				return true
+			})
+		}
 	}
 }
